@@ -84,22 +84,35 @@ func (h *hashRanges) updateElement(elHash uint64) {
 func (h *hashRanges) removeElement(elHash uint64) {
 	rng := h.topRange
 	rng.elements--
+	// the highest divided range (below the top) that fell to the threshold: a freshly
+	// filled index keeps such a range flat, whatever was divided below it
+	var collapse *hashRange
 	for rng.isDivided {
 		rng = h.getBottomRange(rng, elHash)
 		rng.elements--
-	}
-	parent := rng.parent
-	if parent.elements <= h.compareThreshold && parent != h.topRange {
-		ranges := genTupleRanges(parent.from, parent.to, h.divideFactor)
-		for _, tuple := range ranges {
-			child := h.ranges[tuple]
-			delete(h.ranges, tuple)
-			delete(h.dirty, child)
+		if collapse == nil && rng.isDivided && rng.elements <= h.compareThreshold {
+			collapse = rng
 		}
-		parent.isDivided = false
-		h.dirty[parent] = struct{}{}
+	}
+	if collapse != nil {
+		h.removeSubRanges(collapse)
+		collapse.isDivided = false
+		h.dirty[collapse] = struct{}{}
 	} else {
 		h.dirty[rng] = struct{}{}
+	}
+}
+
+// removeSubRanges drops every range below rng from the index
+func (h *hashRanges) removeSubRanges(rng *hashRange) {
+	ranges := genTupleRanges(rng.from, rng.to, h.divideFactor)
+	for _, tuple := range ranges {
+		child := h.ranges[tuple]
+		if child.isDivided {
+			h.removeSubRanges(child)
+		}
+		delete(h.ranges, tuple)
+		delete(h.dirty, child)
 	}
 }
 
